@@ -169,7 +169,8 @@ def run(ctx):
         from ir import has_field as _hf2
         import events as _E2
         lockdst = {cf.blocks[q[0]]['term']['dst']['l']: q for q in _calls(cf, r'RwLock::<R, T>::(write|read|try_write\w*|try_read\w*|upgradable_read)$')}
-        scans = [q for q in _calls(cf, r'Iterator>?::(any|find|position|all)$|<impl \[T\]>::contains$') if 'AutosarModelRaw.files' in _ds(cf, cf.blocks[q[0]]['term']['args'][0], depth=14)[2]]
+        scans = [q for q in _calls(cf, r'Iterator>?::(any|find|position|all)$|<impl \[T\]>::(contains|iter)$|IntoIterator>?::into_iter$|Deref>?::deref$') if 'AutosarModelRaw.files' in _ds(cf, cf.blocks[q[0]]['term']['args'][0], depth=14)[2]
+                 and not any(q == p_ for p_ in [])]
         pushes = [q for q, t in cf.iter_calls() if call_matches(t, r'Vec::<T, A>::(push|insert)$') and (lambda rp: rp is not None and _hf2(rp, 'AutosarModelRaw.files'))(_E2.recv_place(cf, t))]
         def guard_of(q):
             t = cf.blocks[q[0]]['term']
